@@ -1,13 +1,15 @@
 #!/bin/bash
-# tools/seed_baseline.sh <seed-id>... : confirm the pinned 90-test baseline still passes with each seeded patch
-# applied in a scratch worktree (/tmp/wr-base, created and removed here)
-W=/tmp/wr-base
-git -C /repo worktree add -q -f $W HEAD 2>/dev/null || true
-for sid in "$@"; do
-  git -C $W checkout -q -- . ; git -C $W clean -fdq
-  git -C $W apply /verif/seeded/$sid/patch.diff || { echo "$sid: PATCH DOES NOT APPLY"; continue; }
-  (cd $W && PYTHONPATH=$W /venv/bin/python -m pytest -q -p no:cacheprovider --timeout=900 --continue-on-collection-errors --junitxml=/tmp/seedbase-$sid.xml tests > /tmp/seedbase-$sid.log 2>&1)
-  python3 - "$sid" <<'PY'
+# tools/seed_baseline.sh [-j N] <seed-id>... : confirm the pinned 90-test baseline still passes with each seeded
+# patch applied in its own scratch worktree (/tmp/wr-base-<id>, created and removed here)
+J=1
+if [ "$1" = "-j" ]; then J="$2"; shift 2; fi
+one() {
+  sid="$1"; W=/tmp/wr-base-$sid
+  git -C /repo worktree remove --force $W >/dev/null 2>&1
+  git -C /repo worktree add -q --detach $W HEAD || { echo "$sid: cannot create worktree"; return; }
+  if git -C $W apply /verif/seeded/$sid/patch.diff; then
+    (cd $W && PYTHONPATH=$W /venv/bin/python -m pytest -q -p no:cacheprovider --timeout=900 --continue-on-collection-errors --junitxml=/tmp/seedbase-$sid.xml tests > /tmp/seedbase-$sid.log 2>&1)
+    python3 - "$sid" <<'PY'
 import json, sys, xml.etree.ElementTree as ET
 sid=sys.argv[1]
 base=set(json.load(open('/root/.vp/BASELINE.json'))['stable_pass'])
@@ -18,5 +20,11 @@ for tc in ET.parse('/tmp/seedbase-%s.xml'%sid).iter('testcase'):
 missing=sorted(base-passed)
 print(sid, 'baseline ok' if not missing else 'BASELINE BROKEN: %s'%missing, '(%d passed)'%len(passed))
 PY
-done
-git -C $W checkout -q -- . ; git -C /repo worktree remove --force $W
+  else
+    echo "$sid: PATCH DOES NOT APPLY"
+  fi
+  git -C /repo worktree remove --force $W
+  rm -f /tmp/seedbase-$sid.xml /tmp/seedbase-$sid.log
+}
+export -f one
+printf '%s\n' "$@" | xargs -P $J -I{} bash -c 'one {}'
